@@ -35,7 +35,7 @@ def generate(seed, scratch):
             if "items" in world["files"][p]:
                 _dot_includes(world["files"][p]["items"], rs, cfg["dot_includes"])
     return {"property": PID, "seed": seed, "world": world, "cfg": cfg,
-            "schedule": {"root_alias": rs.random() < 0.3,
+            "schedule": {"root_alias": rs.random() < 0.3, "relink": rs.random() < 0.3,
                          # the API allows a code base made of several listed directories
                          "multi_dir": rs.sample(["d1", "d2", "inc1", "inc2", "d1/inc"], rs.randint(2, 4)) if rs.random() < 0.2 else None,
                          "rp_evict": "all" if rs.random() < 0.3 else sorted(rs.sample(range(60), 4)),
@@ -218,7 +218,7 @@ def execute(case, scratch):
                 tgt = os.path.relpath(os.path.realpath(lp), top)
                 paths.append(lp)
                 want.append(tgt in mc)
-            elif l.get("kind") in ("dangling", "outside"):
+            elif l.get("kind") in ("dangling", "outside", "nonsrc_target"):
                 paths.append(lp)
                 want.append(False)
             elif l.get("kind") == "outside_dir":
@@ -239,6 +239,31 @@ def execute(case, scratch):
         oe = oe["obs"][0]
         if oe["exc"] or core.diff_attr(od["attr"], oe["attr"]) or oe["setmap"] != od["setmap"]:
             return viol("cache_eviction_changes_result", {"exc": oe["exc"], "diffs": core.diff_attr(od["attr"], oe.get("attr") or {})})
+        # history with an environment change: analyse, re-point a directory link, analyse again in the SAME
+        # interpreter; the second analysis must equal a fresh interpreter's view of the changed tree
+        dls = [l for l in world.get("links", []) if l.get("kind") == "dir" and "/" not in l["target"] and not l["target"].startswith("@")]
+        if sched.get("relink") and dls and not kw and not spec.get("codebase_dirs"):
+            l = dls[0]
+            parent = os.path.dirname(os.path.join(top, l["path"]))
+            others = sorted(d for d in os.listdir(parent) if os.path.isdir(os.path.join(parent, d))
+                            and not os.path.islink(os.path.join(parent, d)) and d != l["target"] and d in ("d1", "d2", "inc1", "inc2"))
+            if others:
+                an = spec["analyses"][0]
+                rspec = dict(spec)
+                rspec["analyses"] = [an, an]
+                rspec["relink_after"] = {"index": 0, "link": os.path.join(top, l["path"]), "target": others[0]}
+                two = runners.run_fresh("api_run", rspec)["obs"]
+                fresh = runners.run_fresh("api_run", spec)["obs"][0]      # the tree now has the link re-pointed
+                # put the link back for the comparisons that follow
+                os.unlink(os.path.join(top, l["path"]))
+                os.symlink(l["target"], os.path.join(top, l["path"]))
+                stats["variants"] += 2
+                stats["faults"]["link_repointed_between_analyses"] = 1
+                if bool(two[1]["exc"]) != bool(fresh["exc"]) or (not fresh["exc"] and (
+                        core.diff_attr(fresh["attr"], two[1]["attr"]) or fresh["setmap"] != two[1]["setmap"])):
+                    return viol("second_analysis_sees_stale_file_system",
+                                {"link": l["path"], "now": others[0], "fresh_exc": fresh["exc"], "shared_exc": two[1]["exc"],
+                                 "diffs": core.diff_attr(fresh.get("attr") or {}, two[1].get("attr") or {})})
         if sched.get("cli"):
             outs = []
             for w_, t_ in ((cw, topc), (world, top)):
